@@ -112,7 +112,11 @@ def str_get(ex, r, rg):
 
 
 @nat('<str as ToString>::to_string', '<String as ToString>::to_string', '<Cow as ToString>::to_string')
-def str_to_string(ex, r): return StrV(D(ex, r).chars)
+def str_to_string(ex, r):
+    v = D(ex, r)
+    if isinstance(v, Adt) and v.name == 'Cow':
+        v = D(ex, v.fields[0])
+    return StrV(v.chars)
 
 
 @nat('String::len', 'str::len')
@@ -234,7 +238,16 @@ def _pat_text(ex, b):
 
 @nat('str::strip_suffix')
 def str_strip_suffix(ex, a, b):
-    s_, p = D(ex, a).s, _pat_text(ex, b)
+    sa = D(ex, a)
+    if not sa.is_concrete():
+        pb = D(ex, b)
+        pat = pb.chars if isinstance(pb, StrV) else [pb]
+        if len(pat) > len(sa.chars):
+            return NONE()
+        n = len(sa.chars) - len(pat)
+        hit = ex.branch(zbool(str_eq(ex, StrV(sa.chars[n:]), StrV(pat))))
+        return some(Ref(Cell(StrV(sa.chars[:n])))) if hit else NONE()
+    s_, p = sa.s, _pat_text(ex, b)
     return some(Ref(Cell(StrV(s_[:len(s_) - len(p)])))) if s_.endswith(p) else NONE()
 
 
@@ -324,16 +337,43 @@ def str_replace(ex, a, p, t): return StrV(D(ex, a).s.replace(_pat_text(ex, p), D
 def _list_iter(items): return Adt('ListIter', 0, [items, 0])
 
 
+def _split_ws_sym(ex, sv, ws):
+    """whitespace split of a string with symbolic characters: `c is whitespace` is decided by forking per symbolic character"""
+    parts, cur = [], []
+    for c in sv.chars:
+        if isinstance(c, SymPiece):
+            raise Unsupported('whitespace split of text with a formatted symbolic integer')
+        if isinstance(c, int):
+            isws = chr(c) in ws
+        else:
+            isws = ex.branch(simp_bool(z3.Or(*[c == ord(w) for w in ws])))
+        if isws:
+            if cur:
+                parts.append(cur)
+            cur = []
+        else:
+            cur.append(c)
+    if cur:
+        parts.append(cur)
+    return _list_iter([Ref(Cell(StrV(p))) for p in parts])
+
+
 @nat('str::split_whitespace')
 def str_split_whitespace(ex, a):
-    s_ = D(ex, a).s
+    sv = D(ex, a)
+    if not sv.is_concrete():
+        return _split_ws_sym(ex, sv, _RUST_WS)
+    s_ = sv.s
     parts = [p for p in re.split('[' + re.escape(_RUST_WS) + ']+', s_) if p]
     return _list_iter([Ref(Cell(StrV(p))) for p in parts])
 
 
 @nat('str::split_ascii_whitespace')
 def str_split_ascii_whitespace(ex, a):
-    s_ = D(ex, a).s
+    sv = D(ex, a)
+    if not sv.is_concrete():
+        return _split_ws_sym(ex, sv, '\t\n\x0c\r ')
+    s_ = sv.s
     parts = [p for p in re.split('[\t\n\x0c\r ]+', s_) if p]
     return _list_iter([Ref(Cell(StrV(p))) for p in parts])
 
